@@ -1,6 +1,8 @@
 #include "common.h"
 
+#include <fcntl.h>
 #include <signal.h>
+#include <sys/mman.h>
 #include <unistd.h>
 
 ctx_t G;
@@ -159,6 +161,16 @@ void distinct_add(const char* setname, uint64_t h) {
 // ---------------------------------------------------------------- cases
 static char cur_key[256];
 static char cur_desc[1024];
+static char* status_map = 0;  // shared mapping holding the current case (survives any kind of death)
+void vp_set_status_file(const char* path) {
+  int fd = open(path, O_RDWR | O_CREAT | O_TRUNC, 0644);
+  if (fd < 0) return;
+  if (ftruncate(fd, 2048) == 0) {
+    void* m = mmap(0, 2048, PROT_READ | PROT_WRITE, MAP_SHARED, fd, 0);
+    if (m != MAP_FAILED) status_map = (char*)m;
+  }
+  close(fd);
+}
 static char cur_note[1024];
 static volatile int in_case = 0;
 static int64_t cur_idx = -1;
@@ -208,6 +220,7 @@ int case_begin(const char* key, const char* fmt, ...) {
   cur_note[0] = 0;
   cur_viols = 0;
   in_case = 1;
+  if (status_map) snprintf(status_map, 2048, "%" PRId64 "\t%s\t%s\n", cur_idx, cur_key, cur_desc);
   return 1;
 }
 
@@ -232,6 +245,7 @@ void case_end(int nontrivial) {
     }
   }
   in_case = 0;
+  if (status_map) status_map[0] = 0;
 }
 
 void viol(const char* kind, const char* fmt, ...) {
